@@ -51,6 +51,23 @@ class _SpanProc(SpanProcessor):
         return None
 
 
+class _BrokenSpanProc(SpanProcessor):
+    """A span processor that cannot create spans (its backend is down): it costs its own spans, nothing else - the spans
+    of the processors before and after it are opened once and closed once."""
+
+    def __init__(self, name):
+        Plugin.__init__(self, name=name)
+
+    def is_active(self):
+        return True
+
+    def create_span(self, name, context_id, tracepoint_id):
+        raise RuntimeError('span backend unavailable')
+
+    def current_span(self):
+        return None
+
+
 class _Decorator(SnapshotDecorator):
     def __init__(self, drv):
         Plugin.__init__(self, name='decrec')
@@ -115,7 +132,8 @@ class Scenario:
         self.snap_open = {}
         self.deferred = []
         self.frame_results = {}
-        self.rig = R.Rig(plugins=[self.spanproc, _Decorator(self)], push=self.push)
+        self.rig = R.Rig(plugins=[_BrokenSpanProc('brokenspan1'), self.spanproc, _Decorator(self),
+                                  _BrokenSpanProc('brokenspan2')], push=self.push)
         self.rig.install(real)
         self.lock = threading.Lock()
         self.seq = 0
